@@ -36,7 +36,11 @@ func (k *kctx) sig(kernel, class string, same bool) {
 	if !same {
 		o = "diff"
 	}
-	k.c.Count("kernel/" + kernel + "/" + class + "/" + o)
+	cc := class
+	if i := strings.Index(cc, "/"); i >= 0 {
+		cc = cc[:i]
+	}
+	k.c.Count("kernel/" + kernel + "/" + cc + "/" + o)
 	k.c.Nontrivial("k/" + kernel + "/" + class + "/" + o)
 	k.c.D.Evaluations++
 }
